@@ -358,7 +358,7 @@ theorem logging_stable (fmt : Fmt) : GenericF.Stable genEnv fmt allLeaves 6 (.na
   simp only [Gen.struct_LoggingConfig, List.mem_cons, List.mem_nil_iff, or_false] at hm
   rcases hm with h | h | h <;> subst h
   · refine ⟨fun h => by simp at h, ?_, ?_⟩
-    · intro _ h; cases fmt <;> simp [omittedF, omitOf, zeroOf, isZeroY, isEmptyJ, primZero, lcVals] at h
+    · intro _ h; cases fmt <;> simp [omittedF, skipOf, omitOf, zeroOf, isZeroY, isEmptyJ, primZero, lcVals] at h
     · intro _ _; simp [GenericF.Stable, lcVals, isScalar]
   · refine ⟨fun h => by simp at h, ?_, ?_⟩
     · intro _ h
